@@ -80,7 +80,7 @@ def _or_getattr_alternative(node, mod):
         return None
     from ..flow import guard_chain
     st = enclosing_stmt(node)
-    for test, taken in guard_chain(st):
+    for test, taken in guard_chain(st, implicit=True):
         h = has_attr(test)
         if h is not None and h[1] != taken:
             return h[0]
@@ -93,6 +93,9 @@ def _or_getattr_alternative(node, mod):
                 t_, pol_ = t_.left, not pol_
             elif isinstance(t_.ops[0], ast.IsNot):
                 t_ = t_.left
+        if isinstance(t_, ast.Call) and dotted(t_.func) == "getattr" and len(t_.args) >= 3 and not pol_ and isinstance(t_.args[0], ast.Name) \
+                and isinstance(t_.args[1], ast.Constant) and mod.imports.get(t_.args[0].id):
+            return "%s.%s" % (mod.imports[t_.args[0].id], t_.args[1].value)      # if getattr(lib, "alt", None) is None: <node>
         if isinstance(t_, ast.Name) and not pol_:
             # reached when the name is falsy / None: what was it bound to?
             fn_ = st
